@@ -1,5 +1,5 @@
 """C14 - repetition counting and the chain's outcome follow the game history."""
-from . import chainrules
+from . import chainrules, hashrules
 
 
 def run(ctx):
@@ -9,6 +9,8 @@ def run(ctx):
         "R2 BaseMoveChain::calc_outcome, for every abstract input (board outcome none / strict / non-strict) x (0..7 occurrences), takes "
         "exactly one path and returns what the precedence in the statement prescribes",
         "R2a set_auto_outcome stores the calculated outcome exactly on the path where it is present and passes(requested filter)",
+        "R4 the key the repetition table counts by distinguishes positions that differ in one feature (a man on a square, the side to "
+        "move, one castling right, the en-passant mark on each of its 16 possible squares): the build's key tables are non-zero and distinct",
         "R3 the repetition table is keyed by the Zobrist hash only, incremented/inserted on push, decremented/removed on pop; the start "
         "position is entered by new(); (push/pop pairing with make/unmake is C13 L1/L2)",
     ]
@@ -18,3 +20,4 @@ def run(ctx):
     chainrules.calc_outcome_rule(ctx, facts, "R2")
     chainrules.auto_outcome_rule(ctx, facts, "R2a")
     chainrules.repeat_pairing_rule(ctx, facts, "R3")
+    hashrules.key_distinct_rule(ctx, facts, "R4")
